@@ -7,6 +7,7 @@
    PARTIAL: iterator size hints and the helpers built on top are exercised on the implementation. *)
 From Coq Require Import ZArith List.
 From BS Require Import Word BumpSpec ChunkSpec Arena ArenaInv ArenaExt ArenaInv2 ArenaFill ArenaRegrow AllocRefine.
+From BS.gen Require FixFacts.
 From BS.gen Require AllocSites.
 Import ListNotations.
 Open Scope Z_scope.
@@ -140,6 +141,11 @@ Theorem C15_source_commit_position_is_the_models :
   AllocSites.commit_pos_from (up c) m x ea = Ok (commit_pos c m ea false x).
 Proof. exact commit_pos_refines. Qed.
 
+(* the repair of a genuine defect recorded in known_findings.json is still in place in the CURRENT source (tools/fixsites.py ->
+   gen/FixFacts.v, read out on every run): a `fixed:` entry suppresses nothing, and its syntactic return breaks this obligation *)
+Theorem C15_repair_in_place_defect8 : FixFacts.defect8_regrowth_copies_with_memmove = true.
+Proof. vm_compute. reflexivity. Qed.
+
 Print Assumptions C15_prepare_keeps_positions.
 Print Assumptions C15_prepare_preserves_invariant.
 Print Assumptions C15_commit_preserves_invariant.
@@ -157,3 +163,4 @@ Print Assumptions C15_regrow_same_chunk_overlaps.
 Print Assumptions C15_regrow_copy_keeps_contents.
 Print Assumptions C15_regrow_copy_frame.
 Print Assumptions C15_source_commit_position_is_the_models.
+Print Assumptions C15_repair_in_place_defect8.
